@@ -80,7 +80,25 @@ const LETTERS: &[u8] = b"abcdefghijklmnopqrstuvwxyz";
 const DIGITS: &[u8] = b"0123456789";
 const ALNUM: &[u8] = b"abcdefghijklmnopqrstuvwxyz0123456789";
 
+/// One real-world word from the lexicon that is a valid member of its class (the lists also hold near
+/// misses such as over-long registry names; those are used as raw tokens by the G-lex phase only).
+fn lex(r: &mut Rng, list: &'static [&'static str], ok: fn(&[u8]) -> bool) -> Option<String> {
+    for _ in 0..6 {
+        let w = *r.pick(list);
+        if ok(w.as_bytes()) {
+            return Some(w.to_string());
+        }
+    }
+    None
+}
+const LEX_IN: u32 = 5; // one in five pool draws comes from the real-world lexicon
+
 pub fn gen_lang(r: &mut Rng) -> String {
+    if r.chance(1, LEX_IN) {
+        if let Some(w) = lex(r, crate::lexicon::LANGS, refspec::is_lang) {
+            return w;
+        }
+    }
     if r.chance(2, 3) {
         r.pick(LANGS).to_string()
     } else {
@@ -89,6 +107,11 @@ pub fn gen_lang(r: &mut Rng) -> String {
     }
 }
 pub fn gen_script(r: &mut Rng) -> String {
+    if r.chance(1, LEX_IN) {
+        if let Some(w) = lex(r, crate::lexicon::SCRIPTS, refspec::is_script) {
+            return w;
+        }
+    }
     if r.chance(2, 3) {
         r.pick(SCRIPTS).to_string()
     } else {
@@ -96,6 +119,11 @@ pub fn gen_script(r: &mut Rng) -> String {
     }
 }
 pub fn gen_region(r: &mut Rng) -> String {
+    if r.chance(1, LEX_IN) {
+        if let Some(w) = lex(r, crate::lexicon::REGIONS, refspec::is_region) {
+            return w;
+        }
+    }
     if r.chance(2, 3) {
         r.pick(REGIONS).to_string()
     } else if r.chance(1, 2) {
@@ -105,6 +133,11 @@ pub fn gen_region(r: &mut Rng) -> String {
     }
 }
 pub fn gen_variant(r: &mut Rng) -> String {
+    if r.chance(1, LEX_IN) {
+        if let Some(w) = lex(r, crate::lexicon::VARIANTS, refspec::is_variant) {
+            return w;
+        }
+    }
     if r.chance(2, 3) {
         r.pick(VARIANTS).to_string()
     } else if r.chance(1, 3) {
@@ -117,6 +150,13 @@ pub fn gen_variant(r: &mut Rng) -> String {
     }
 }
 fn gen_3_8(r: &mut Rng, pool: &[&str]) -> String {
+    if r.chance(1, LEX_IN) {
+        // attributes, -u- types and -t- values share one production (3-8 alphanumerics)
+        let list = if std::ptr::eq(pool.as_ptr(), TVALUES.as_ptr()) { crate::lexicon::TVALUES } else { crate::lexicon::UTYPES };
+        if let Some(w) = lex(r, list, refspec::is_utype) {
+            return w;
+        }
+    }
     if r.chance(3, 4) {
         r.pick(pool).to_string()
     } else {
@@ -125,6 +165,11 @@ fn gen_3_8(r: &mut Rng, pool: &[&str]) -> String {
     }
 }
 pub fn gen_ukey(r: &mut Rng) -> String {
+    if r.chance(1, LEX_IN) {
+        if let Some(w) = lex(r, crate::lexicon::UKEYS, refspec::is_ukey) {
+            return w;
+        }
+    }
     if r.chance(3, 4) {
         r.pick(UKEYS).to_string()
     } else {
@@ -134,6 +179,11 @@ pub fn gen_ukey(r: &mut Rng) -> String {
     }
 }
 pub fn gen_tkey(r: &mut Rng) -> String {
+    if r.chance(1, LEX_IN) {
+        if let Some(w) = lex(r, crate::lexicon::TKEYS, refspec::is_tkey) {
+            return w;
+        }
+    }
     if r.chance(3, 4) {
         r.pick(TKEYS).to_string()
     } else {
@@ -595,9 +645,69 @@ pub fn corpus() -> Vec<String> {
         .iter()
         .map(|s| s.to_string()),
     );
+    out.extend(crate::lexicon::IDS.iter().map(|s| s.to_string()));
     out.sort();
     out.dedup();
     out
+}
+
+/// G-lex: every word of the real-world lexicon in every position where a parser could treat it specially
+/// (alone, as script / region / variant after several prefixes, in front of a tail, as -u- attribute / key /
+/// type, as tlang / tfield key / value, as private tag), all variant pairs, all registry key x type pairs.
+/// The inputs are judged by the ordinary oracles; nothing here knows which words matter.
+pub fn enum_lex(shard: usize, nshards: usize, f: &mut dyn FnMut(&[u8])) {
+    use crate::lexicon as lx;
+    let mut words: Vec<&str> = vec![];
+    for l in [lx::LANGS, lx::SCRIPTS, lx::REGIONS, lx::VARIANTS, lx::UKEYS, lx::UTYPES, lx::TKEYS, lx::TVALUES] {
+        words.extend_from_slice(l);
+    }
+    words.sort();
+    words.dedup();
+    const FRAMES: &[(&str, &str)] = &[
+        ("", ""), ("en-", ""), ("en-US-", ""), ("und-Latn-", ""), ("en-Latn-US-valencia-", ""), ("de-1996-", "-macos"), ("", "-US"), ("", "-Latn-US-posix"),
+        ("en-u-", ""), ("en-u-ca-", ""), ("en-u-", "-gregory"), ("en-u-attr-", "-nu-thai"), ("en-t-", ""), ("en-t-", "-hybrid"), ("en-t-h0-", ""),
+        ("en-t-de-", ""), ("en-t-", "-k0-dvorak"), ("en-x-", ""), ("en-US-", "-u-ca-buddhist"), ("sr-Cyrl-RS-", "-t-en-x-a"),
+    ];
+    let mut idx = 0usize;
+    let mut buf: Vec<u8> = Vec::with_capacity(64);
+    let mut emit = |parts: &[&str], idx: &mut usize| {
+        if *idx % nshards == shard {
+            buf.clear();
+            for p in parts {
+                buf.extend_from_slice(p.as_bytes());
+            }
+            f(&buf);
+        }
+        *idx += 1;
+    };
+    for w in &words {
+        for (pre, post) in FRAMES {
+            emit(&[pre, w, post], &mut idx);
+        }
+    }
+    for a in lx::VARIANTS {
+        for b in lx::VARIANTS {
+            emit(&["de-", a, "-", b], &mut idx);
+        }
+    }
+    for k in lx::UKEYS {
+        for t in lx::UTYPES {
+            emit(&["en-u-", k, "-", t], &mut idx);
+            emit(&["en-US-", t, "-u-", k, "-", t], &mut idx);
+        }
+    }
+    for k in lx::TKEYS {
+        for t in lx::TVALUES {
+            emit(&["en-t-", k, "-", t], &mut idx);
+        }
+    }
+    for l in lx::LANGS {
+        for s in ["", "-Latn", "-Arab", "-Cyrl"] {
+            for r in ["", "-US", "-PK", "-001"] {
+                emit(&[l, s, r], &mut idx);
+            }
+        }
+    }
 }
 
 pub const SUFFIXES: &[&str] = &[
